@@ -31,7 +31,7 @@ func checkC07(p *Prog, r *Report) {
 	r.assume("net/url returns errors rather than panicking on malformed input")
 	r.notCovered("that pruned inclusion paths are exactly the maximal ones, uniqueness of sorting rules, and the values net/url produces")
 
-	pc := runR3(p, r, r3opts{entries: e7, explicit: wrapperDelegation, delegate: wrapperSitesDelegated, assumeGet: true, getNilImpl: implReturningNilIface(p), floorSites: 120, floorFns: 12})
+	pc := runR3(p, r, r3opts{entries: e7, explicit: wrapperDelegation, delegate: wrapperSitesDelegated, assumeGet: true, getNilImpl: implReturningNilIface(p), floorSites: 90, floorFns: 12})
 
 	np := p.Fn("NewParams")
 	if np == nil {
@@ -402,6 +402,28 @@ func checkMemberAppends(p *Prog, r *Report, f *ssa.Function) {
 			}
 			why = w
 		}
+		if !ok {
+			// an in-place compaction: the list appended to starts as L[:0] and
+			// every appended element is an element of L itself - a sub-list of
+			// L, whose elements are validated where L's are
+			if l := compactionSource(a.c.Call.Args[0], 0); l != nil {
+				all := len(a.elem) > 0
+				for _, e := range a.elem {
+					ld, isLd := e.(*ssa.UnOp)
+					if !isLd || ld.Op != token.MUL {
+						all = false
+						continue
+					}
+					ia, isIA := ld.X.(*ssa.IndexAddr)
+					if !isIA || !sameListVar(stripValue(ia.X), l) {
+						all = false
+					}
+				}
+				if all {
+					ok, why = true, "an element of the list that is being compacted in place"
+				}
+			}
+		}
 		status[a.c] = ok
 		n++
 		r.decide(ok, "C07.member-append", funcName(f)+":"+p.describe(a.c), p.pos(a.c.Pos()), "appended element: "+why,
@@ -559,6 +581,15 @@ func idFlagTrueOnEdge(pred, succ *ssa.BasicBlock) bool {
 // isIDFlag: a boolean phi that becomes true only on an edge from a block in
 // which a rule equal to "id" (after stripping '-') was appended.
 func isIDFlag(v ssa.Value) bool {
+	if lk, ok := v.(*ssa.Lookup); ok && !lk.CommaOk {
+		// the names for which a rule was kept are collected in a local set:
+		// set["id"] is the id-found flag if "id" can only get into the set
+		// where a rule equal to "id" was appended
+		if s, ok := constString(lk.Index); ok && s == "id" {
+			return idSetFlag(lk.X)
+		}
+		return false
+	}
 	phi, ok := v.(*ssa.Phi)
 	if !ok {
 		return false
@@ -1175,4 +1206,95 @@ func paramBoundToField(p *Prog, prm *ssa.Parameter, field string) bool {
 		}
 	}
 	return true
+}
+
+// idSetFlag: m is a local map[string]bool; every store into it either has a key
+// that is known to differ from "id" where it is made, or is made where the key
+// equals "id" and a rule is appended in the same block.
+func idSetFlag(m ssa.Value) bool {
+	mk, ok := m.(*ssa.MakeMap)
+	if !ok {
+		return false
+	}
+	n := 0
+	for _, ref := range referrers(mk) {
+		mu, ok := ref.(*ssa.MapUpdate)
+		if !ok {
+			if _, isLk := ref.(*ssa.Lookup); isLk {
+				continue
+			}
+			if _, isDbg := ref.(*ssa.DebugRef); isDbg {
+				continue
+			}
+			return false
+		}
+		if cb, isC := constBool(mu.Value); !isC || !cb {
+			return false
+		}
+		isID, notID := false, false
+		if s, ok := constString(mu.Key); ok {
+			isID, notID = s == "id", s != "id"
+		}
+		for _, ef := range expandFacts(factsAt(mu.Block())) {
+			bo, ok := ef.Cond.(*ssa.BinOp)
+			if !ok || bo.Op != token.EQL {
+				continue
+			}
+			for _, pr := range [][2]ssa.Value{{bo.X, bo.Y}, {bo.Y, bo.X}} {
+				if s, ok := constString(pr[1]); ok && s == "id" && pr[0] == mu.Key {
+					if ef.Truth {
+						isID = true
+					} else {
+						notID = true
+					}
+				}
+			}
+		}
+		switch {
+		case notID:
+		case isID:
+			hasAppend := false
+			for _, ins := range mu.Block().Instrs {
+				if c, ok := ins.(*ssa.Call); ok && builtinName(c.Common()) == "append" {
+					hasAppend = true
+				}
+			}
+			if !hasAppend {
+				return false
+			}
+			n++
+		default:
+			return false
+		}
+	}
+	return n > 0
+}
+
+// compactionSource: v is the running value of `kept := L[:0]; kept = append(kept, …)`;
+// returns L.
+func compactionSource(v ssa.Value, depth int) ssa.Value {
+	if depth > 8 {
+		return nil
+	}
+	switch x := v.(type) {
+	case *ssa.Slice:
+		if x.Low == nil && x.High != nil {
+			if z, ok := constInt(x.High); ok && z == 0 {
+				return stripValue(x.X)
+			}
+		}
+	case *ssa.Phi:
+		var found ssa.Value
+		for _, e := range x.Edges {
+			if l := compactionSource(e, depth+1); l != nil {
+				found = l
+			}
+		}
+		return found
+	case *ssa.Call:
+		if builtinName(x.Common()) == "append" {
+			return compactionSource(x.Common().Args[0], depth+1)
+		}
+	}
+	return nil
 }
